@@ -209,18 +209,18 @@ def random_case(rng, i, allow_edges=True):
     rns = rng.sample(PROT, rng.randint(2, 4)) + rng.sample(NONP, rng.randint(1, 2))
     blocks = {}
     for rn in rns:
-        names = ["BB"] + rng.sample(ANAMES[1:], rng.randint(0, 3))
+        names = ["BB"] + (rng.sample(ANAMES[1:], rng.randint(2, 4)) if rng.random() > 0.15 else [])
         atoms = [{"an": n, "ty": "T%d" % rng.randint(1, 6), "q": rng.choice(["0.0", "1.0", "-1.0", "0.5"]), "m": rng.choice(["72.0", "36.0", "54.0"])} for n in names]
         blocks[rn] = {"atoms": atoms, "bonds": [(0, j, ("1", "0.27", "5000")) for j in range(1, len(names))]}
-    mnames = [n for n in ("N-ter", "C-ter") if rng.random() < 0.65] + rng.sample(["MA", "MB", "MC", "MD", "ME", "MF"], rng.randint(1, 4))
+    mnames = [n for n in ("N-ter", "C-ter") if rng.random() < 0.85] + rng.sample(["MA", "MB", "MC", "MD", "ME", "MF"], rng.randint(1, 4))
     if rng.random() < 0.08:
         mnames = []
     rng.shuffle(mnames)
     lib = []
     for mi, name in enumerate(mnames):
-        pool = ANAMES + (["NEW1"] if rng.random() < 0.15 else [])
+        pool = ANAMES + (["NEW1"] if rng.random() < 0.1 else [])
         names = rng.sample(pool, rng.randint(1, 3))
-        if rng.random() < 0.7 and "BB" not in names:
+        if (rng.random() < 0.7 or name in ("N-ter", "C-ter")) and "BB" not in names:
             names[0] = "BB"
         atoms = []
         for ai, n in enumerate(names):
@@ -234,9 +234,10 @@ def random_case(rng, i, allow_edges=True):
                 rep.append({"k": k, "v": v})
             atoms.append({"an": n, "rep": rep})
         ints = []
-        for sec, nat, par in rng.sample(SECS, rng.randint(0, 2)):
+        usable = [x for x in SECS if (x[1] <= len(names) or (x[0] == "angles" and len(names) == 2)) and (x[1] > 1 or rng.random() < 0.25)]
+        for sec, nat, par in rng.sample(usable, min(len(usable), rng.randint(0, 2))):
             for _ in range(rng.randint(1, 2)):
-                at = rng.sample(names, nat) if nat <= len(names) else [rng.choice(names) for _ in range(nat)]
+                at = rng.sample(names, nat) if nat <= len(names) else [names[0], names[1], names[0]]
                 ints.append({"sec": sec, "at": at, "par": list(par[:-1]) + [str(rng.randint(1, 99))]})
         lib.append({"name": name, "atoms": atoms, "inters": ints, "edges": []})
     if allow_edges and lib and rng.random() < 0.04:
@@ -249,17 +250,29 @@ def random_case(rng, i, allow_edges=True):
     if rng.random() < 0.5:
         res[0]["rn"] = rng.choice([r for r in rns if r in PROT])
     reqs = []
+    rough = rng.random() < 0.35        # requests that may name unknown modifications / residue ids / absent anchors
     if rng.random() > 0.2:
         for _ in range(rng.randint(1, 5)):
             p = rng.randrange(n)
+            mod = rng.choice(mnames) if mnames and (not rough or rng.random() < 0.8) else "NOPE"
+            if not rough and mnames:
+                # prefer a residue that has every atom the interactions of the modification name
+                md = next(m for m in lib if m["name"] == mod)
+                need = {a for x in md["inters"] for a in x["at"]}
+                fit = [q for q in range(n) if need <= {a["an"] for a in blocks[res[q]["rn"]]["atoms"]}]
+                if fit:
+                    p = rng.choice(fit)
             u = rng.random()
             rn = res[p]["rn"] if u < 0.7 else (rng.choice(rns) if u < 0.9 else "")
-            resid = res[p]["resid"] if rng.random() < 0.92 else start + n + rng.randint(0, 3)
-            mod = rng.choice(mnames) if mnames and rng.random() < 0.88 else "NOPE"
+            resid = res[p]["resid"] if (not rough or rng.random() < 0.85) else start + n + rng.randint(0, 3)
             reqs.append({"rn": rn, "resid": resid, "mod": mod})
     order = list(range(1, n + 1))
     rng.shuffle(order)
-    return {"id": "L%d" % i, "blocks": blocks, "lib": lib, "res": res, "ins": order, "reqs": reqs, "split": rng.random() < 0.7}
+    linkrep = None
+    if rng.random() < 0.5:      # the link between consecutive residues replaces attributes of BB: modifications come later and must win
+        linkrep = {k: v for k, v in (("ty", "LK%d" % rng.randint(1, 3)), ("q", "0.75")) if rng.random() < 0.7} or {"ty": "LK0"}
+    return {"id": "L%d" % i, "blocks": blocks, "lib": lib, "res": res, "ins": order, "reqs": reqs, "split": rng.random() < 0.7, "linkrep": linkrep,
+            "e2e": rng.random() < 0.3}
 
 
 def make_trace(rc, res, pre_res=None):
@@ -297,16 +310,24 @@ def _random_chunk(arg):
     for i, rc in items:
         d = Path(wd) / ("c%d" % i)
         try:
-            paths = mu.write_ff(d, rc["blocks"], rc["lib"], tag="r", split=rc["split"])
+            paths = mu.write_ff(d, rc["blocks"], rc["lib"], tag="r", split=rc["split"], linkrep=rc.get("linkrep"))
             inp = {"res": rc["res"], "ins": rc["ins"], "reqs": rc["reqs"]}
             lay = mu.layout_for(dict(inp, reqs=[]), rng, shapes=("linear", "cyclic", "tree"))
             res = mu.run_recorded(paths, inp, lay, default_arg=rng.random() < 0.5, rng=rng)
             pre_res = None
             if "load_err" in res:
-                p0 = mu.write_ff(d / "noload", rc["blocks"], [], tag="r")
+                p0 = mu.write_ff(d / "noload", rc["blocks"], [], tag="r", linkrep=rc.get("linkrep"))
                 pre_res = mu.run_recorded(p0, dict(inp, reqs=[]), lay, mods=[["X1", "none"]])
             tr = make_trace(rc, res, pre_res)
-            out.append((i, tr, {k: res[k] for k in ("exc", "load_err", "setup_err", "mods") if k in res}, lay))
+            obs = {k: res[k] for k in ("exc", "load_err", "setup_err", "mods") if k in res}
+            if rc.get("e2e") and tr is not None and "mods" in res:
+                # the same input through gen_params: the written file must show the molecule the (validated) processors produced
+                o = mu.run_gen_params(paths, inp, lay, d / "gp", res["mods"])
+                obs["e2e"] = {"exc": o.get("exc"), "files": o["files"], "atoms": [list(x[:4]) for x in mu.itp_atoms(o["itp"])] if "itp" in o else None,
+                              "inters": mu.bag(o["itp"]["inters"]) if "itp" in o else None, "itp_err": o.get("itp_err")}
+                if "post" in res:
+                    obs["e2e"]["expected_inters"] = mu.bag(res["post"]["inters"])
+            out.append((i, tr, obs, lay))
         except c.MachineryError:
             raise
         except Exception as exc:
@@ -319,7 +340,7 @@ def tlc_traces(traces, libs, flags, name):
     wd = c.workdir(PROP, name)
     f = wd / "traces.json"
     f.write_text(json.dumps({"libs": libs, "asis": {k: bool(v) for k, v in flags.items()}, "traces": traces}))
-    res = c.tlc("ModsTrace", "Mod_trace.cfg", workers=1, env={"TRACE_FILE": str(f)}, check=False, timeout=1800)
+    res = c.tlc("ModsTrace", "Mod_trace.cfg", workers=1, env={"TRACE_FILE": str(f), "JAVA_TOOL_OPTIONS": mu.LIGHT_JVM}, check=False, timeout=1800)
     rej = res.tagged("REJECTED")
     fired = res.tagged("FIRED")
     if (res.rc != 0 and not rej) or not fired:
@@ -354,6 +375,35 @@ def validate(ck, traces, libs, flags, name, info, expect_reject=False):
     return rejected
 
 
+def judge_e2e(ck, label, tr, obs, gen):
+    """the same input through gen_params: the written file must show what the (validated) processors produced"""
+    e2e = obs.get("e2e")
+    if e2e is None:
+        return
+    last = tr["events"][-1]
+    why = None
+    truncated = any(len(x["at"]) != mu.NATOMS.get(x["sec"], len(x["at"])) for x in last["added"])
+    if truncated:
+        pass        # open finding mod-interaction-truncated (reported through FIRED): the writer sorts / rejects such lines by its own rules
+    elif last["op"] == "finish":
+        if e2e["exc"]:
+            why = "gen_params raised %s: %s" % (e2e["exc"]["type"], e2e["exc"]["msg"][:100])
+        elif e2e["atoms"] is None:
+            why = "gen_params wrote no readable file (%s)" % (e2e.get("itp_err") or e2e["files"])
+        elif [list(x) for x in e2e["atoms"]] != [[a["an"], a["ty"], a["q"], a["m"]] for a in last["atoms"]]:
+            why = "gen_params wrote other atoms than the processors produced (modifications must come after the links)"
+        elif [list(map(_l, x)) for x in e2e["inters"]] != [list(map(_l, x)) for x in e2e.get("expected_inters") or []]:
+            why = "gen_params wrote other interactions than the processors produced"
+    elif not e2e["exc"] or e2e["files"]:
+        why = "the processors fail (%s) but gen_params %s" % (last["err"], "returns normally" if not e2e["exc"] else "leaves files %s" % e2e["files"])
+    if why:
+        ck.violation({"kind": "I->S run", "gen": gen, "observed": obs}, what="%s: %s" % (label, why))
+
+
+def _l(v):
+    return list(v) if isinstance(v, (list, tuple)) else v
+
+
 def random_traces(ck, n, sd, flags, name="random"):
     rng = random.Random(sd)
     rcs = [random_case(rng, i) for i in range(n)]
@@ -372,6 +422,9 @@ def random_traces(ck, n, sd, flags, name="random"):
             ck.violation({"kind": "I->S run", "gen": gen, "observed": obs}, what="random case %d could not be set up on the real code: %s" % (i, json.dumps(obs)[:300]))
             continue
         libs[rc["id"]] = rc["lib"]
+        if obs.get("e2e") is not None:
+            stats["through_gen_params"] = stats.get("through_gen_params", 0) + 1
+        judge_e2e(ck, "random case %d" % i, tr, obs, gen)
         traces.append(tr)
         info.append({"what": "random case %d: %s, requests %s" % (i, [r["rn"] for r in rc["res"]], ["%s%d:%s" % (r["rn"], r["resid"], r["mod"]) for r in rc["reqs"]]),
                      "gen": gen, "observed": obs})
@@ -419,6 +472,19 @@ def _shipped_chunk(arg):
     return lib, mnames, out
 
 
+def judge_shipped_e2e(ck, what, spec, tr, e2e):
+    last = tr["events"][-1]
+    if last["op"] == "finish":
+        exp = [[a["an"], a["ty"], a["q"], a["m"]] for a in last["atoms"]]
+        obs_a = [list(x[:4]) for x in e2e["atoms"]] if e2e["atoms"] is not None else None
+        if e2e["exc"] or obs_a != exp:
+            ck.violation({"kind": "I->S shipped", "gen": {"shipped": spec}, "observed": e2e}, what="gen_params -lib martini3 %s writes other atoms than the validated run of the processors (%s)" % (
+                what, e2e["exc"] or "atoms differ"))
+    elif not e2e["exc"] or e2e["files"]:
+        ck.violation({"kind": "I->S shipped", "gen": {"shipped": spec}, "observed": e2e}, what="gen_params -lib martini3 %s: the processors fail (%s) but gen_params %s" % (
+            what, last["err"], "returns normally" if not e2e["exc"] else "leaves files %s" % e2e["files"]))
+
+
 def shipped(ck, n, sd, flags):
     rng = random.Random(sd + 5)
     mods = ["C-ter", "N-ter", "zwitter", "COOH-ter", "NH2-ter", "CCAP-ter", "NCAP-ter"]
@@ -454,7 +520,7 @@ def shipped(ck, n, sd, flags):
             spec = specs[i]
             what = "martini3 %s, requests %s" % ([r["rn"] for r in spec["res"]], ["%s%d:%s" % (r["rn"], r["resid"], r["mod"]) for r in spec["reqs"]] or "(automatic termini)")
             if tr is None:
-                ck.violation({"kind": "I->S shipped", "gen": spec, "observed": obs}, what="%s could not be run: %s" % (what, json.dumps(obs)[:300]))
+                ck.violation({"kind": "I->S shipped", "gen": {"shipped": spec}, "observed": obs}, what="%s could not be run: %s" % (what, json.dumps(obs)[:300]))
                 continue
             traces.append(tr)
             info.append({"what": what, "gen": {"shipped": spec}, "observed": obs})
@@ -466,16 +532,7 @@ def shipped(ck, n, sd, flags):
                         ungated.add(rn)
             if e2e is not None:
                 ne2e += 1
-                last = tr["events"][-1]
-                if last["op"] == "finish":
-                    exp = [(a["an"], a["ty"], a["q"], a["m"]) for a in last["atoms"]]
-                    obs_a = [x[:4] for x in e2e["atoms"]] if e2e["atoms"] is not None else None
-                    if e2e["exc"] or obs_a != exp:
-                        ck.violation({"kind": "I->S shipped", "gen": spec, "observed": e2e}, what="gen_params -lib martini3 %s writes other atoms than the validated run of the processors (%s)" % (
-                            what, e2e["exc"] or "atoms differ"))
-                elif not e2e["exc"] or e2e["files"]:
-                    ck.violation({"kind": "I->S shipped", "gen": spec, "observed": e2e}, what="gen_params -lib martini3 %s: the processors fail (%s) but gen_params %s" % (
-                        what, last["err"], "returns normally" if not e2e["exc"] else "leaves files %s" % e2e["files"]))
+                judge_shipped_e2e(ck, what, spec, tr, e2e)
     if traces:
         validate(ck, traces, {"martini3": lib}, flags, "shipped_tlc", info)
     ck.extra["shipped"] = {"library": "martini3", "modifications": [m["name"] for m in (lib or [])], "runs": len(traces), "through_gen_params": ne2e,
@@ -501,11 +558,11 @@ def run(tier):
                       "node keys, insertion order and the shape of the residue graph (linear, cyclic, tree) are drawn by the harness: the specification claims they do not matter",
                       "the flags of the open findings (%s) follow known_findings.d: %s" % (", ".join(SIGS.values()), json.dumps(flags))]
     ck.stage("TLC: model, as-is classifier, sensitivity, expectations, export")
-    jobs = [("ModsMC", "Mod_small.cfg" if quick else "Mod_full.cfg", {"workers": 2 if quick else 4, "coverage": True, "timeout": 7200}),
-            ("ModsExport", "Mod_export.cfg" if quick else "Mod_export_full.cfg", {"workers": 1 if quick else 2, "timeout": 7200, "env": flag_env(flags)}),
-            ("ModsMC", "Mod_asis_tiny.cfg" if quick else "Mod_asis.cfg", {"workers": 1, "timeout": 3600})]
-    jobs += [("ModsMC", cfg, {"check": False, "timeout": 1800}) for cfg, _, _ in DEVS]
-    jobs += [("ModsMC", cfg, {"check": False, "timeout": 1800}) for cfg, _ in EXPS]
+    jobs = [("ModsMC", "Mod_small.cfg" if quick else "Mod_full.cfg", {"workers": 2 if quick else 4, "coverage": True, "timeout": 7200, "light": quick}),
+            ("ModsExport", "Mod_export.cfg" if quick else "Mod_export_full.cfg", {"workers": 1 if quick else 2, "timeout": 7200, "env": flag_env(flags), "light": quick}),
+            ("ModsMC", "Mod_asis_tiny.cfg" if quick else "Mod_asis.cfg", {"workers": 1, "timeout": 3600, "light": quick})]
+    jobs += [("ModsMC", cfg, {"check": False, "timeout": 1800, "light": True}) for cfg, _, _ in DEVS]
+    jobs += [("ModsMC", cfg, {"check": False, "timeout": 1800, "light": True}) for cfg, _ in EXPS]
     res = mu.tlc_group(jobs, par=4)
     main, ex, asis = res[0], res[1], res[2]
     ck.model_must_hold(main, "Conform / ErrorLaw / Frame / ResolveLaw / TerminiLaw / ReplaceLaw (I-layer = P-layer, any visiting order)")
@@ -626,6 +683,7 @@ def replay(path):
             ck.violations += 1
         else:
             validate(ck, [tr], {rc["id"]: rc["lib"]}, flags, "replay_tlc", [{"what": "replayed random case", "gen": case["gen"], "observed": obs}])
+            judge_e2e(ck, "replayed random case", tr, obs, case["gen"])
     elif case.get("gen") and "shipped" in case["gen"]:
         spec = case["gen"]["shipped"]
         wd = c.workdir(PROP, "replay_shipped")
@@ -636,6 +694,8 @@ def replay(path):
             ck.violations += 1
         else:
             validate(ck, [tr], {"martini3": lib}, flags, "replay_tlc", [{"what": "replayed martini3 run", "gen": case["gen"], "observed": obs}])
+            if e2e is not None:
+                judge_shipped_e2e(ck, "replayed martini3 run", spec, tr, e2e)
     else:
         print("unknown kind of stored case:", kind)
         return 2
